@@ -217,9 +217,10 @@ class Kernels:
         return ok_any
 
     # -------------------------------------------------------- linear ops
-    def linear(self, fld, op):
+    def linear(self, fld, op, kind=None):
         run = self.run
-        if op not in fld.d["fns"]:
+        kind = kind or op
+        if not fld.has(op):
             return
         ob = new_ob(run, f"{fld.key}/{op}", f"{fld.d['ty']}::{op}: for all canonical operands out = (a {op} b) mod p, "
                     f"out < p (internals-free, one quotient), and no MIR assert (overflow/index) is reachable",
@@ -233,14 +234,14 @@ class Kernels:
                 return
             out = fld.flat(ip, r)
             pre = "(and " + " ".join(fld.canon(ip, lv) for lv in ins) + ")"
-            goal = fld.goal_linear(ip, op, ins, out)
+            goal = fld.goal_linear(ip, kind, ins, out)
             gv = [x.t for lv in ins for x in lv]
             st, label, res = solve_all(ob, [("spec", fld.q_goal(ip, pre, goal), gv),
                                             ("no-panic", fld.q_nopanic(ip, pre), gv)], cap())
             ob.detail = f"{len(ip.ctx.panics)} MIR asserts sent to the solver, {ip.ctx.folded_asserts} folded to true " \
                         f"on constant operands; {len(ip.ctx.decl)} SMT lines"
             if st == "sat":
-                exp = (lambda vals: ("ok", fld.py_linear(op, vals))) if label == "spec" else None
+                exp = (lambda vals: ("ok", fld.py_linear(kind, vals))) if label == "spec" else None
                 self.violation_or_inconclusive(ob, fld, op, label, res, ins, exp, f"{fld.key}.{op}")
                 return
             if st != "unsat":
@@ -260,9 +261,9 @@ class Kernels:
     # -------------------------------------------------------- montgomery_reduce (white box)
     def reduce(self, fld, op="reduce"):
         run = self.run
-        if op not in fld.d["fns"]:
+        if not fld.has(op):
             return
-        nm = "montgomery_reduce" if op == "reduce" else op
+        nm = {"reduce": "montgomery_reduce", "reduce_const": "montgomery_reduce_const"}.get(op, op)
         ob = new_ob(run, f"{fld.key}/{nm}",
                     f"{fld.d['ty']}::{nm}: for every T < p*2^256, out < p and out*2^256 = T + K*p - c*p*2^256 with "
                     f"K = sum k_i 2^(64 i) built from the wrapping_mul(_, INV) values of the body (white-box Montgomery "
@@ -276,7 +277,7 @@ class Kernels:
                 out = fld.flat(ip, r)
                 leaves = [x for lv in ins for x in lv]
                 c = ip.ctx
-                T = c.define(MF.sum_term(ip, leaves), "T")
+                T = MF.sum_term(ip, leaves)
                 ks = fld.wrapping_muls(ip)
                 goal = fld.goal_reduce(ip, T, out, ks)
             except (Untranslatable, KeyError) as ex:
@@ -285,6 +286,23 @@ class Kernels:
             pre = f"(< {T} {fld.p * fld.R})"
             gv = [x.t for x in leaves]
             p, R = fld.p, fld.R
+            cut_at = getattr(c, "cut_at", None)
+            cpath = c.path_term(c.cut_path) if cut_at is not None else c.path_term()
+            # per-round lemmas: the discarded low limb of mac(r_i, k_i, MODULUS[0], 0) is 0 (the number-theoretic
+            # core INV*p = -1 mod 2^64, local to one round); found structurally: mac calls fed with a
+            # wrapping_mul(_, INV) result and a zero carry
+            kts = {ip.term(k[1]) for k in ks}
+            ds = []
+            for (pth, a, res_) in ip.call_log:
+                if pth.endswith("::mac") and len(a) == 4 and not isinstance(ip.force(a[1]), int) \
+                        and ip.term(ip.force(a[1])) in kts and a[3] == 0:
+                    ds.append(ip.term(ip.force(res_.f[0])))
+            queries = []
+            assumed = ""
+            base = c.text(cut_at) + f"(assert {pre})\n(assert {cpath})\n"
+            for i_, dt in enumerate(ds):
+                queries.append((f"round-{i_}-low-limb-zero", base + assumed + f"(assert (not (= {dt} 0)))\n", gv))
+                assumed += f"(assert (= {dt} 0))\n"
             if ip.havoc_pairs:
                 # cut at the final conditional subtraction: (1) prefix lemma on the values flowing into it,
                 # (2) the subtraction on fresh values constrained only by the lemma's bound, (3) composition
@@ -295,18 +313,19 @@ class Kernels:
                 L1 = f"(and (= (* {R} {Vo}) (+ {T} (* {p} {K}))) (< {Vo} {2 * p}))"
                 tail_pre = f"(< {Vn} {2 * p})"
                 L2 = f"(and (< {O} {p}) (or (= {O} {Vn}) (= {O} (- {Vn} {p}))))"
-                q1 = c.text() + f"(assert {pre})\n(assert {c.path_term()})\n(assert (not {L1}))\n"
+                q1 = base + assumed + f"(assert (not {L1}))\n"
                 q2 = c.text() + f"(assert {tail_pre})\n(assert {c.path_term()})\n(assert (not {L2}))\n"
                 q3 = "(set-logic ALL)\n" + "\n".join(f"(declare-const {v} Int)" for v in ("T", "K", "V", "O")) + \
                      f"\n(assert (and (= (* {R} V) (+ T (* {p} K))) (< V {2 * p}) (< O {p}) (or (= O V) (= O (- V {p})))))\n" \
                      f"(assert (not (and (< O {p}) (or (= (* {R} O) (+ T (* {p} K))) (= (* {R} O) (- (+ T (* {p} K)) {p * R}))))))\n"
                 qp = fld.q_nopanic(ip, f"(and {pre} {tail_pre})")
-                queries = [("prefix-lemma", q1, gv), ("final-subtraction", q2, [w.t for w, o in ip.havoc_pairs]),
-                           ("composition", q3, None), ("no-panic", qp, gv)]
-                how = f"cut at the final conditional subtraction ({len(ip.havoc_pairs)} limbs havocked)"
+                queries += [("prefix-lemma", q1, gv), ("final-subtraction", q2, [w.t for w, o in ip.havoc_pairs]),
+                            ("composition", q3, None), ("no-panic", qp, gv)]
+                how = f"{len(ds)} per-round lemmas, cut at the final conditional subtraction ({len(ip.havoc_pairs)} limbs havocked)"
             else:
-                queries = [("spec", fld.q_goal(ip, pre, goal), gv), ("no-panic", fld.q_nopanic(ip, pre), gv)]
-                how = "monolithic"
+                queries += [("spec", c.text() + f"(assert {pre})\n(assert {c.path_term()})\n" + assumed +
+                             f"(assert (not {goal}))\n", gv), ("no-panic", fld.q_nopanic(ip, pre), gv)]
+                how = f"{len(ds)} per-round lemmas, monolithic goal"
             st, label, res = solve_all(ob, queries, cap())
             ob.detail = f"{how}; {len(ip.ctx.panics)} MIR asserts sent to the solver, {ip.ctx.folded_asserts} folded; " \
                         f"{len(ip.ctx.decl)} SMT lines"
@@ -338,7 +357,7 @@ class Kernels:
                 ob.set(core.INCONCLUSIVE, f"{label}: {res.raw[:200] if res else ''}")
                 return
             p, R = fld.p, fld.R
-            if op == "reduce":
+            if op in ("reduce", "reduce_const"):
                 vectors = [[0], [1], [p * R - 1], [p], [R - 1], [(p - 1) * (p - 1)], [R], [p * (R - 1)]] + \
                           [[self.rnd.randrange(p * R)] for _ in range(6)]
             else:
@@ -355,7 +374,7 @@ class Kernels:
     # -------------------------------------------------------- mul / square: schoolbook over opaque products
     def product(self, fld, op):
         run = self.run
-        if op not in fld.d["fns"]:
+        if not fld.has(op):
             return
         ob = new_ob(run, f"{fld.key}/{op}/schoolbook",
                     f"{fld.d['ty']}::{op}: with every 64x64-bit limb product an opaque bounded value pi(a_i,b_j), the "
@@ -462,7 +481,7 @@ class Kernels:
     def from_raw(self, fld):
         run = self.run
         op = "from_raw"
-        if op not in fld.d["fns"] or "R2" not in fld.raw:
+        if not fld.has(op) or "R2" not in fld.raw:
             return
         ob = new_ob(run, f"{fld.key}/from_raw",
                     f"{fld.d['ty']}::from_raw(v): for every 256-bit v, out < p and out*2^256 = v*R2 + m*p (so out is the "
@@ -509,3 +528,244 @@ class Kernels:
         self.dec.job(work)
 
 
+
+
+    # -------------------------------------------------------- byte plumbing and wide reduction (Jubjub Fr shape)
+    def bytes_ops(self, fld):
+        run = self.run
+        p, R = fld.p, fld.R
+        Rinv = pow(R, -1, p)
+
+        def common(op, what, bound):
+            return new_ob(run, f"{fld.key}/{op}", what,
+                          [f"{fld.d['src']}::{op}", f"{fld.d['src']}::montgomery_reduce"], bound)
+
+        # ---- to_bytes
+        if fld.has("to_bytes"):
+            ob1 = common("to_bytes", f"{fld.d['ty']}::to_bytes(a): the 32 bytes are the little-endian digits of V with V < p and "
+                         f"V*2^256 = A + m*p (A the raw Montgomery limbs): canonical encoding of a/R mod p; no MIR assert "
+                         f"reachable", "all 256-bit raw limb values")
+
+            def w1(ob=ob1):
+                op = "to_bytes"
+                try:
+                    ip, ins, r, it = fld.run_op(op, summaries=["reduce"])
+                    out = fld.flat(ip, r)
+                    if len(out) != 32 or len(ip.summ) != 1:
+                        raise Untranslatable(f"shape: {len(out)} output leaves, {len(ip.summ)} reduce calls")
+                    sm = ip.summ[0]
+                except (Untranslatable, KeyError) as ex:
+                    ob.set(core.INCONCLUSIVE, f"untranslatable: {ex}")
+                    return
+                A = MF.sum_term(ip, ins[0])
+                V = MF.sum_term(ip, out, 8)
+                goal = f"(and (< {V} {p}) (= (* {R} {V}) (+ {A} (* {p} {sm['m']}))) (= {sm['T']} {A}))"
+                gv = [x.t for x in ins[0]]
+                st, label, res = solve_all(ob, [("spec", fld.q_goal(ip, "true", goal), gv),
+                                                ("no-panic+pre", fld.q_nopanic(ip, "true"), gv)], cap())
+                self.finish(ob, fld, op, st, label, res, ins, lambda vals: ("ok", vals[0] * Rinv % p),
+                            [[v] for v in boundary_vectors(fld, self.rnd, canonical=False)], out_bits=8)
+            self.dec.job(w1)
+
+        # ---- from_bytes
+        if fld.has("from_bytes"):
+            ob2 = common("from_bytes", f"{fld.d['ty']}::from_bytes(b): is_some = 1 iff value(b) < p (else 0), and the carried "
+                         f"element satisfies out < p, out*2^256 = value(b)*R2 + m*p; no MIR assert reachable",
+                         "all 2^256 byte strings")
+
+            def w2(ob=ob2):
+                op = "from_bytes"
+                try:
+                    ip, ins, r, it = fld.run_op(op, summaries=["reduce"])
+                    out = fld.flat(ip, r)
+                    if len(out) != fld.n + 1 or len(ip.summ) != 1:
+                        raise Untranslatable(f"shape: {len(out)} output leaves, {len(ip.summ)} reduce calls")
+                    sm = ip.summ[0]
+                except (Untranslatable, KeyError) as ex:
+                    ob.set(core.INCONCLUSIVE, f"untranslatable: {ex}")
+                    return
+                Bv = MF.sum_term(ip, ins[0], 8)
+                O = MF.sum_term(ip, out[:fld.n])
+                flag = ip.term(out[fld.n])
+                goal = f"(and (= {flag} (ite (< {Bv} {p}) 1 0)) (< {O} {p}) " \
+                       f"(= (* {R} {O}) (+ (* {fld.raw['R2']} {Bv}) (* {p} {sm['m']}))))"
+                gv = [x.t for x in ins[0]]
+                st, label, res = solve_all(ob, [("spec", fld.q_goal(ip, "true", goal), gv),
+                                                ("no-panic+pre", fld.q_nopanic(ip, "true"), gv)], cap())
+
+                def exp(vals):
+                    v = vals[0]
+                    return ("some", v * R % p) if v < p else ("none", None)
+                self.finish(ob, fld, op, st, label, res, ins, exp,
+                            [[v] for v in boundary_vectors(fld, self.rnd, canonical=False)], in_bits=8,
+                            out_sel=lambda o: o[:fld.n], decode_conc=self.decode_ctoption(fld))
+            self.dec.job(w2)
+
+        # ---- from_u512 / from_bytes_wide
+        for op, in_bits in (("from_u512", 64), ("from_bytes_wide", 8)):
+            if not fld.has(op):
+                continue
+            ob3 = common(op, f"{fld.d['ty']}::{op}(x): with x = d0 + 2^256*d1, the two products handed to montgomery_reduce are "
+                         f"exactly d0*R2 and d1*R3, and out < p, out = x0 + x1 or x0 + x1 - p for the two reductions' results "
+                         f"(so out = (d0*R + d1*R^2) mod p given the ground facts on R2, R3); no MIR assert reachable",
+                         "all 512-bit inputs")
+
+            def w3(ob=ob3, op=op, in_bits=in_bits):
+                try:
+                    ip, ins, r, it = fld.run_op(op, summaries=["reduce", "add"])
+                    out = fld.flat(ip, r)
+                    kinds = [x["op"] for x in ip.summ]
+                    if len(out) != fld.n or kinds != ["reduce", "reduce", "add"]:
+                        raise Untranslatable(f"shape: {len(out)} output leaves, callee contracts used: {kinds}")
+                    s0, s1, sa = ip.summ
+                except (Untranslatable, KeyError) as ex:
+                    ob.set(core.INCONCLUSIVE, f"untranslatable: {ex}")
+                    return
+                per = 256 // in_bits
+                D0 = MF.sum_term(ip, ins[0][:per], in_bits)
+                D1 = MF.sum_term(ip, ins[0][per:], in_bits)
+                O = MF.sum_term(ip, out)
+                g0 = f"(= {s0['T']} (* {fld.raw['R2']} {D0}))"
+                g1 = f"(= {s1['T']} (* {fld.raw['R3']} {D1}))"
+                g2 = f"(and (< {O} {p}) (or (= {O} (+ {s0['O']} {s1['O']})) (= {O} (- (+ {s0['O']} {s1['O']}) {p}))))"
+                # (the add is used through its contract, proven by the `add` obligation; its precondition - both
+                # reductions' results canonical - is part of the no-panic+pre query)
+                gv = [x.t for x in ins[0]]
+                st, label, res = solve_all(ob, [("spec", fld.q_goal(ip, "true", g0), gv),
+                                                ("spec", fld.q_goal(ip, "true", g1), gv),
+                                                ("spec", fld.q_goal(ip, "true", g2), gv),
+                                                ("no-panic+pre", fld.q_nopanic(ip, "true"), gv)], cap())
+                vecs = [0, 1, (1 << 512) - 1, p, p << 256, (p - 1) + ((p - 1) << 256), 1 << 256, (1 << 256) - 1] + \
+                       [self.rnd.randrange(1 << 512) for _ in range(5)]
+                self.finish(ob, fld, op, st, label, res, ins,
+                            lambda vals: ("ok", ((vals[0] % (1 << 256)) * R + (vals[0] >> 256) * R * R) % p),
+                            [[v] for v in vecs], in_bits=in_bits)
+            self.dec.job(w3)
+
+    def decode_ctoption(self, fld):
+        def dec(ipc, rc):
+            leaves = fld.flat(ipc, rc)
+            val = sum(x << (64 * i) for i, x in enumerate(leaves[:fld.n]))
+            return ("some", val) if leaves[fld.n] == 1 else ("none", None)
+        return dec
+
+    def finish(self, ob, fld, op, st, label, res, ins, exp, vectors, in_bits=64, out_bits=64, out_sel=None,
+               decode_conc=None):
+        """common tail: sat -> replay; unsat -> vacuity twin on the FULL body (no summaries) -> HOLDS"""
+        if st == "sat":
+            vals = None
+            if res is not None:
+                vals = []
+                for lv in ins:
+                    v = 0
+                    for i, x in enumerate(lv):
+                        xi = x if isinstance(x, int) else res.model.get(x.t)
+                        if xi is None:
+                            vals = None
+                            break
+                        v += xi << (in_bits * i)
+                    if vals is None:
+                        break
+                    vals.append(v)
+            if vals is None:
+                ob.set(core.INCONCLUSIVE, f"{label}: sat but model incomplete")
+                return
+            self.replay_vals(ob, fld, op, label, res, vals, exp if label == "spec" else None)
+            return
+        if st != "unsat":
+            ob.set(core.INCONCLUSIVE, f"{label}: {res.raw[:200] if res else ''}")
+            return
+        try:
+            ip2, ins2, r2, _ = fld.run_op(op)
+            out2 = fld.flat(ip2, r2)
+            if out_sel:
+                out2 = out_sel(out2)
+            tw = self.twin2(ob, fld, op, ip2, ins2, out2, vectors, in_bits, out_bits, decode_conc)
+        except Untranslatable as ex:
+            tw = None
+        ob.vacuity = bool(tw) if tw is not None else None
+        if tw is False:
+            ob.set(core.INCONCLUSIVE, "vacuity twin (pinned concrete inputs, full body) did not agree with native")
+            return
+        ob.set(core.HOLDS)
+
+    def replay_vals(self, ob, fld, op, label, r, vals, exp_fn):
+        res = self.replay_op(fld, op, vals)
+        if not res:
+            ob.set(core.INCONCLUSIVE, f"{label}: sat ({r.solver}) but no native replay available for {fld.key}.{op}")
+            return
+        exp = exp_fn(vals) if exp_fn else None
+        bad = {}
+        for prof, (tag, v) in res.items():
+            if tag == "panic":
+                bad[prof] = f"panic: {v}"
+            elif tag == "err":
+                continue
+            elif exp is not None and (tag, v if tag != "none" else None) != exp:
+                bad[prof] = f"real={tag} {MF.hexs(v) if isinstance(v, int) else v} expected={exp[0]} " \
+                            f"{MF.hexs(exp[1]) if isinstance(exp[1], int) else ''}"
+        if bad:
+            payload = dict(kind="field-kernel", field=fld.key, op=op, replay_type=fld.d["replay"],
+                           replay_op=fld.d["replay_ops"][op], operands=[MF.hexs(x) for x in vals],
+                           expected=[exp[0], MF.hexs(exp[1]) if isinstance(exp[1], int) else None] if exp else None,
+                           observed=bad, query=label)
+            path = self.run.write_replay(ob, payload)
+            ob.set(core.VIOLATION, f"{fld.key}.{op}: {label} sat ({r.solver}); operands {[MF.hexs(x) for x in vals]}; {bad}",
+                   replay=path)
+        else:
+            ob.set(core.INCONCLUSIVE, f"{label}: sat ({r.solver}) but the counterexample does not reproduce natively "
+                                      f"(operands {[MF.hexs(x) for x in vals]}, real {res})")
+
+    def twin2(self, ob, fld, op, ip, leaves_in, out_leaves, vectors, in_bits, out_bits, decode_conc, n_smt=1):
+        rop = fld.d["replay_ops"].get(op)
+        if rop is None or "dev" not in self.rep.bins:
+            return None
+        lines = [f"{fld.d['replay']} {rop} " + " ".join(MF.hexs(x) for x in v) for v in vectors]
+        nat = [MF.parse_replay(l) for l in self.rep.field_batch(lines, "dev")]
+        c = ip.ctx
+        flat_in = [x for lv in leaves_in for x in lv]
+        ok_any = False
+        mask = (1 << in_bits) - 1
+        for vi, (vec, (tag, nv)) in enumerate(zip(vectors, nat)):
+            conc = []
+            for val, lv in zip(vec, leaves_in):
+                conc += [(val >> (in_bits * i)) & mask for i in range(len(lv))]
+            try:
+                ipc, _, rc, _ = fld.run_op(op, concrete=conc)
+                if decode_conc:
+                    got = decode_conc(ipc, rc)
+                else:
+                    got = ("ok", sum(x << (out_bits * i) for i, x in enumerate(fld.flat(ipc, rc))))
+                with self.lock:
+                    self.tv["concrete"] += 1
+                want = (tag, nv if tag != "none" else None)
+                if tag in ("ok", "some", "none") and got != want:
+                    with self.lock:
+                        self.tv["mismatch"].append(f"{fld.key}.{op} concrete {[MF.hexs(x) for x in vec]}: interp {got} native {want}")
+            except Untranslatable as ex:
+                if tag != "panic":
+                    with self.lock:
+                        self.tv["mismatch"].append(f"{fld.key}.{op} concrete {[MF.hexs(x) for x in vec]}: {ex}")
+            if vi >= n_smt or tag not in ("ok", "some"):
+                continue
+            pins = " ".join(f"(= {x.t} {cv})" for x, cv in zip(flat_in, conc) if not isinstance(x, int))
+            outs = [x for x in out_leaves if not isinstance(x, int)]
+            smt = c.text() + f"(assert {c.path_term()})\n(assert (and {pins} true))\n"
+            r = solvers.solve(smt, timeout=30, get_values=[x.t for x in outs])
+            ob.queries += 1
+            with self.lock:
+                self.tv["smt"] += 1
+            if r.status != "sat":
+                with self.lock:
+                    self.tv["mismatch"].append(f"{fld.key}.{op} pinned query {r.status}")
+                continue
+            val = 0
+            for i, x in enumerate(out_leaves):
+                xi = x if isinstance(x, int) else r.model.get(x.t, 0)
+                val += xi << (out_bits * i)
+            if val == nv:
+                ok_any = True
+            else:
+                with self.lock:
+                    self.tv["mismatch"].append(f"{fld.key}.{op} smt {[MF.hexs(x) for x in vec]}: encoding {MF.hexs(val)} native {MF.hexs(nv)}")
+        return ok_any
